@@ -287,22 +287,54 @@ class Gen:
             m += ' '          # keep following text from being read as part of the macro
         return m
 
+    def image_name(self, n, ext_ok=True):
+        """A file name for image number n in one of the forms the documentation allows for `fname` (a name without
+        extension gets '.png' appended; an extension '.png' in any case is kept; the name may contain directories),
+        and the class of that form (recorded in meta['assets'] under the base name of the file that is to be written;
+        used for the vacuity counters only)."""
+        rng = self.rng
+        form = rng.randrange(8)
+        if form == 0 or not ext_ok and form in (1, 2, 3):
+            name, cls = 'img%d' % n, 'name without extension'
+        elif form == 1:
+            name, cls = 'img%d.png' % n, 'lower-case .png extension'
+        elif form == 2:
+            name, cls = 'Img%d.PNG' % n, 'non-lower-case .png extension'
+        elif form == 3:
+            name, cls = 'img%d.%s' % (n, rng.choice(['Png', 'pNG', 'PnG'])), 'non-lower-case .png extension'
+        elif form == 4:
+            name, cls = 'img%d.%s' % (n, rng.choice(['gif', 'v2', 'PNG.bak'])), 'other extension (.png is appended)'
+        elif form == 5:
+            name, cls = '%s/img%d' % (rng.choice(['sub', 'sub/deeper', 'Dir.v2']), n), 'name with sub-directory, no extension'
+        elif form == 6:
+            name, cls = '%s/Img%d.%s' % (rng.choice(['sub', 'pics/x']), n, rng.choice(['PNG', 'Png'])), 'name with sub-directory, non-lower-case .png extension'
+        else:
+            name, cls = 'img%d' % n, 'name without extension'
+        base = name.rsplit('/', 1)[-1]
+        if base.lower()[-4:] != '.png':
+            base += '.png'
+        self.assets[base] = 'image: ' + cls
+        return name
+
     def image_macro(self):
         rng = self.rng
         if self.images and rng.random() < 0.6:
             return rng.choice(self.images)
         n = len(self.images)
-        name = 'img%d' % n
-        kind = rng.randrange(9)
+        kind = rng.randrange(12)
         addr = 39000 + 8 * rng.randrange(4)
+        if kind == 1:
+            m = '#UDG%d,%d,%d' % (addr, 40 + n, rng.choice([2, 4]))        # default UDGFilename
+            self.images.append(m)
+            return m
+        name = self.image_name(n)
         if kind == 0:
             m = '#UDG%d,%d(%s)' % (addr, rng.choice([6, 56, 7]), name)
-        elif kind == 1:
-            m = '#UDG%d,%d,%d' % (addr, 40 + n, rng.choice([2, 4]))        # default UDGFilename
         elif kind == 2:
             m = '#UDG%d(/%s/%s)' % (addr, rng.choice(['abs', 'abs/dir', 'x/y/z']), name)
+            self.assets_abs.add(name.rsplit('/', 1)[-1])
         elif kind == 3:
-            m = '#UDG%d({ImagePath}/sub/%s.png)' % (addr, name)
+            m = '#UDG%d({ImagePath}/sub/%s)' % (addr, name)
         elif kind == 4:
             m = '#SCR1,%d,%d,2,2(%s)' % (rng.randrange(30), rng.randrange(22), name)
         elif kind == 5:
@@ -311,8 +343,17 @@ class Gen:
             m = '#FONT%d,2(%s)' % (addr, name)
         elif kind == 7:
             m = '#UDGARRAY2(%d;%d)(%s)' % (addr, addr + 8, name)
+        elif kind == 8:
+            m = '#UDG%d,5,3(%s)' % (addr, name)
+        elif kind == 9:
+            # frames: a frame is defined, drawn on, and the image is made of it by #FRAMES
+            m = '#UDG%d,7,2(*fr%d)#PLOT%d,%d(fr%d)#FRAMES(fr%d)(%s)' % (addr, n, rng.randrange(8), rng.randrange(8), n, n, name)
+        elif kind == 10:
+            m = ('#UDGARRAY2(%d;%d)(*bg%d)#UDG%d(*fg%d)#OVER1,0(bg%d,fg%d)#COPY0,0,1,1(bg%d,cp%d)#FRAMES(bg%d;cp%d)(%s)'
+                 % (addr, addr + 8, n, addr, n, n, n, n, n, n, n, name))
         else:
-            m = '#UDG%d,5,3(%s.png)' % (addr, name)
+            m = '#FONT%d(ab)(/%s)' % (addr, name)
+            self.assets_abs.add(name.rsplit('/', 1)[-1])
         self.images.append(m)
         return m
 
@@ -321,19 +362,72 @@ class Gen:
         if self.audio and rng.random() < 0.5:
             return rng.choice(self.audio)
         n = len(self.audio)
-        kind = rng.randrange(4)
+        kind = rng.randrange(13)
+        delays = rng.choice(['(500,1000,500,800)', '(300,300)', '([200]*4,150)'])
+        uext = rng.choice(['WAV', 'Wav', 'wAV', 'waV'])
         if kind == 0:
             name = 'snd%d.wav' % n
             self.resources[name] = ('audio-path', b'RIFFxxxx')
             m = '#AUDIO0(%s)' % name
+            cls = 'existing file, lower-case .wav'
         elif kind == 1:
-            m = '#AUDIO0(gen%d.wav)(500,1000,500,800)' % n
+            name = 'gen%d.wav' % n
+            m = '#AUDIO0(%s)%s' % (name, delays)
+            cls = 'delays, lower-case .wav'
         elif kind == 2:
-            m = '#AUDIO0(/%s/gen%d.wav)(300,300)' % (rng.choice(['abs', 'sounds/deep']), n)
-        else:
+            name = 'gen%d.wav' % n
+            m = '#AUDIO0(/%s/%s)%s' % (rng.choice(['abs', 'sounds/deep']), name, delays)
+            cls = 'delays, leading /, lower-case .wav'
+        elif kind == 3:
             # an alternative format of the named file exists: the macro must link to that one
-            self.resources['tune%d.%s' % (n, rng.choice(['flac', 'mp3', 'ogg']))] = ('audio-path', b'fLaC')
+            name = 'tune%d.%s' % (n, rng.choice(['flac', 'mp3', 'ogg']))
+            self.resources[name] = ('audio-path', b'fLaC')
             m = '#AUDIO0(tune%d.wav)' % n
+            cls = 'alternative format exists'
+            self.assets['tune%d.wav' % n] = 'audio: ' + cls
+        elif kind == 4:
+            name = '%s%d.%s' % (rng.choice(['Gen', 'gen']), n, uext)
+            m = '#AUDIO0(%s)%s' % (name, delays)
+            cls = 'delays, non-lower-case .wav'
+        elif kind == 5:
+            name = 'Tune%d.%s' % (n, uext)
+            m = '#AUDIO0(/%s/%s)%s' % (rng.choice(['abs', 'Sounds/deep']), name, delays)
+            cls = 'delays, leading /, non-lower-case .wav'
+        elif kind == 6:
+            name = 'gen%d.%s' % (n, rng.choice(['wav', uext]))
+            m = '#AUDIO0(%s/%s)%s' % (rng.choice(['sub', 'sub/fx.d']), name, delays)
+            cls = 'delays, sub-directory' + ('' if name.endswith('.wav') else ', non-lower-case .wav')
+        elif kind == 7:
+            name = 'Snd%d.%s' % (n, uext)
+            self.resources[name] = ('audio-path', b'RIFFxxxx')
+            m = '#AUDIO0(%s)' % name
+            cls = 'existing file, non-lower-case .wav'
+        elif kind == 8:
+            # no '.wav' extension: documented not to be written even with delays - the file is provided by [Resources]
+            name = rng.choice(['raw%d', 'clip%d.mp3', 'clip%d.wav.bak']) % n
+            self.resources[name] = ('audio-path', b'xxxx')
+            m = '#AUDIO0(%s)%s' % (name, delays)
+            cls = 'delays, no .wav extension, existing file'
+        elif kind == 9:
+            name = rng.choice(['raw%d', 'clip%d.OGG']) % n
+            self.resources[name] = ('audio-path', b'xxxx')
+            m = '#AUDIO0(%s)' % name
+            cls = 'existing file, no .wav extension'
+        elif kind == 10:
+            name = 'Tune%d.%s' % (n, rng.choice(['flac', 'mp3', 'ogg']))
+            self.resources[name] = ('audio-path', b'fLaC')
+            m = '#AUDIO0(Tune%d.%s)%s' % (n, uext, rng.choice(['', delays]))
+            cls = 'alternative format exists, non-lower-case .wav named'
+            self.assets['Tune%d.%s' % (n, uext)] = 'audio: ' + cls       # (the class is counted whichever of the two is linked)
+        elif kind == 11:
+            name = 'Beep%d.%s' % (n, uext)
+            m = '#AUDIO0,0,0,1(%s)%s' % (name, delays)                    # execint=1
+            cls = 'delays, non-lower-case .wav'
+        else:
+            name = 'gen%d.wav' % n
+            m = '#AUDIO0,0,0,0,1(%s)%s' % (name, delays)                  # cmio=1
+            cls = 'delays, lower-case .wav'
+        self.assets[name] = 'audio: ' + cls
         self.audio.append(m)
         return m
 
@@ -368,9 +462,9 @@ class Gen:
                 parts.append(self.r_macro(ctx))
             elif r < 0.7 and images:
                 parts.append(self.image_macro())
-            elif r < 0.78 and images:
+            elif r < 0.82 and images:
                 parts.append(self.audio_macro())
-            elif r < 0.92 and links:
+            elif r < 0.94 and links:
                 parts.append(self.link_macro(ctx))
             else:
                 parts.append('<a href="%s">ext</a>' % rng.choice(['https://skoolkit.ca/', 'http://example.com/a/b.html#x',
@@ -384,6 +478,7 @@ class Gen:
         rng = self.rng
         S = dict(seed=self.seedval)
         self.images, self.audio, self.resources = [], [], {}
+        self.assets, self.assets_abs = {}, set()
         self.ranchors = []
         # options
         single_how = rng.choice(['', '', '', '-1', 'ref', 'ref'])
@@ -712,6 +807,7 @@ class Gen:
         S['tla'] = tla
         S['meta'] = dict(single=single, runs=runs, opts=opts, anchor=atext, codefiles=ftext, ncodes=len(self.codes),
                          paths=P, join_css=join_css, theme=theme, game=game, ranchors=self.ranchors,
+                         assets=self.assets, assets_abs=sorted(self.assets_abs),
                          late_eps=[c['late'] for c in self.codes],
                          page_js={pid: [paths[pid], v] for pid, v in page_jsval.items()}, global_js=js, ndirectives=[len(c['rdirs']) for c in self.codes],
                          remotes=[sorted({a for decl in c['remotes'].values() for ea, pts in decl for a in [ea] + pts})
